@@ -100,6 +100,7 @@ type ContractSet struct {
 	Funcs   map[string]*Contract
 	UFuns   map[string]*Spec // uninterpreted functions (no body)
 	Config  map[string][]string
+	DependsLines [][]string // config depends P Q R ...
 	GhostFields map[string]string // ghost field name -> Go type of its value ("Int", "bool", ...)
 	Axioms  []*Clause // assumed everywhere (each names the ground obligation or audit that justifies it)
 	Specs   map[string]*Spec
@@ -329,6 +330,9 @@ func (cs *ContractSet) loadFile(path string, goFile bool, pkgName string, assume
 			fs := strings.Fields(rest)
 			if len(fs) > 0 {
 				cs.Config[fs[0]] = append(cs.Config[fs[0]], fs[1:]...)
+				if fs[0] == "depends" {
+					cs.DependsLines = append(cs.DependsLines, fs[1:])
+				}
 			}
 		case "ufun":
 			cur, curLemma, curGlobal = nil, nil, false
